@@ -2,9 +2,10 @@
 Require Extraction.
 Require Import ExtrOcamlBasic.
 Require Import Model.Base Model.Ir Model.VarUse Model.Taint Model.SideEffect.
-Require Model.SsaCheck.
+Require Model.SsaCheck Model.BranchRegion Spec.CtlDep.
 Separate Extraction Base.base_roots Base.outcome Ir.cfg
   Taint.canon Taint.single_step_taint Taint.multi_step_taint Taint.single_step_constraint
   Taint.multi_step_constraint Taint.constrained_variables Taint.run_taint_analysis
   SideEffect.run_side_effect_analysis_with SideEffect.universe SideEffect.table SideEffect.ssa_wf_b
-  SsaCheck.ssa_check SsaCheck.nodup_v SsaCheck.all_defs.
+  SsaCheck.ssa_check SsaCheck.nodup_v SsaCheck.all_defs
+  SideEffect.exported_sinks BranchRegion.branches_of BranchRegion.start_frontier_max CtlDep.ctl_closed_b CtlDep.ctl_pairs.
